@@ -14,7 +14,7 @@ CONSTANTS
   MaxAcks = 1
   MaxGen = 6
   MaxNotify = 0
-  MaxEnds = 1
+  MaxEnds = 2
   MaxFail = 0
   AutoReset = "earliest"
   Finite = FALSE
